@@ -20,16 +20,16 @@ namespace XMT.StateAccShape
 open XMT XMT.State XMT.StateConc XMT.StateAcc
 
 def accessLists : List (String × List Nat) :=
-  [("CanRecv", [1, 1, 1, 1]), ("Channel", [1]), ("ChannelCanStart", [1, 1, 1]),
-   ("ChannelCanStop", [1, 1, 1, 4, 1, 3, 5, 1, 1]), ("ChannelProxy", [1]), ("ChannelUpdated", [1]),
-   ("ChannelValue", [1]), ("Closed", [1]), ("Closing", [1, 1]), ("Last", [1]), ("Moving", [1]),
-   ("Ready", [1, 1]), ("RecvClosed", [1, 1]), ("Replacing", [1]), ("Seen", [1]), ("SendClosed", [1, 1]),
+  [("CanRecv", [1]), ("Channel", [1]), ("ChannelCanStart", [1]),
+   ("ChannelCanStop", [1, 1, 4, 1, 3, 5, 1, 1]), ("ChannelProxy", [1]), ("ChannelUpdated", [1]),
+   ("ChannelValue", [1]), ("Closed", [1]), ("Closing", [1]), ("Last", [1]), ("Moving", [1]),
+   ("Ready", [1]), ("RecvClosed", [1]), ("Replacing", [1]), ("Seen", [1]), ("SendClosed", [1]),
    ("Set", [4, 1, 3, 5]),
    -- if e { ChannelValue; Set } else { Channel, ChannelProxy, ChannelValue; (the same three again as
    -- arguments of the bugtrack message, compiled out unless bugtrack.Enabled); Unset }; Set
    ("SetChannel", [1, 4, 1, 3, 5, 1, 1, 1, 1, 1, 1, 4, 1, 3, 5, 4, 1, 3, 5]),
-   ("SetLast", [4, 1, 3, 5]), ("Shutdown", [1, 1]), ("ShutdownWait", [1]), ("Tag", [1, 4, 1, 3, 5]),
-   ("Unset", [4, 1, 3, 5]), ("WakeClosed", [1, 1]), ("trySet", [4, 1, 3, 5]), ("tryUnset", [4, 1, 3, 5])]
+   ("SetLast", [4, 1, 3, 5]), ("Shutdown", [1]), ("ShutdownWait", [1]), ("Tag", [4, 1, 3, 5]),
+   ("Unset", [4, 1, 3, 5]), ("WakeClosed", [1]), ("trySet", [4, 1, 3, 5]), ("tryUnset", [4, 1, 3, 5])]
 
 /-- the state.go method(s) a model call stands for -/
 def Call.fns : Call → List String
@@ -47,6 +47,9 @@ def Call.fns : Call → List String
   | .canStop => ["ChannelCanStop"]
   | .setChannel _ => ["SetChannel"]
   | .tag => ["Tag"]
+  -- the programs before the repair stand for no method of the current source
+  | .origReady => []
+  | .origTag => []
 
 def row (name : String) : Option (List Nat) := (accessLists.find? fun p => p.1 == name).map (·.2)
 
@@ -65,7 +68,7 @@ def within (t : List Nat) (name : String) : Bool :=
   | none => false
 
 macro "shp" "[" ts:Lean.Parser.Tactic.simpLemma,* "]" : tactic =>
-  `(tactic| (simp only [Call.fns, Call.meth, trace, flagM, domM, closedM, Op.early, Bool.false_eq_true, ↓reduceIte,
+  `(tactic| (simp only [Call.fns, Call.meth, trace, flagM, domM, dom1M, closedM, Op.early, Bool.false_eq_true, ↓reduceIte,
       List.append_nil, Bool.not_true, Bool.not_false, $ts,*] <;> try decide))
 
 /-- every solo trace of every model method, from every word, follows one path through the source row -/
@@ -75,17 +78,19 @@ theorem trace_sublist (c : Call) (w : Nat) : (Call.fns c).all (within (trace 8 c
     cases op <;> (simp only [Call.fns, Call.meth, trace]; split <;> decide)
   | last => shp []
   | simple m => shp []
-  | dom m => cases h : has w stClosed <;> shp [h]
-  | ready => cases h : has w stClosed <;> shp [h]
-  | canRecv => cases h : has w stClosed <;> cases h2 : has w stRecvClose <;> shp [h, h2]
-  | canStart => cases h : has w stClosed <;> cases h2 : has w stChannel <;> shp [h, h2]
-  | tag => cases h : has w stSeen <;> shp [h]
+  | dom m => shp []
+  | ready => shp []
+  | canRecv => shp []
+  | canStart => shp []
+  | origReady => rfl
+  | origTag => rfl
+  | tag => simp only [Call.fns, Call.meth, trace]; split <;> decide
   | setChannel e =>
     cases e
     · cases h : has w stChannel <;> cases h2 : has w stChannelProxy <;> cases h3 : has w stChannelValue <;> shp [h, h2, h3]
     · cases h : has w stChannelValue <;> shp [h]
   | canStop =>
-    cases h : has w stClosed <;> cases h2 : has w stClosing <;> cases h3 : has w stChannel <;> shp [h, h2, h3]
+    cases h : (has w stClosed || has w stClosing) <;> cases h3 : has w stChannel <;> shp [h, h3]
     by_cases h4 : (w &&& stChannelUpdated == 0) = true <;> by_cases h5 : (Op.tryUnset stChannelUpdated).ret w = true <;>
       simp only [h4, h5, trace, Bool.false_eq_true, ↓reduceIte] <;> decide
 
